@@ -150,6 +150,9 @@ def report(prop, tier, seed, results, bounded, kf, known_by_id, wall, a):
             for u, e in errors: lines.append(f"UNDECIDED unit {u}: {e[:600]}")
             for o in undecided: lines.append(f"UNDECIDED {o['name']}: {o.get('reason', '')}")
             for m in missing: lines.append(f"UNDECIDED baseline obligation not generated: {m}")
+    if code == 1:
+        for u, e in errors: lines.append(f"NOTE undecided unit {u}: {e[:600]}")
+        for o in undecided: lines.append(f"NOTE undecided {o['name']}: {o.get('reason', '')}")
     for l in lines: print(l)
     level = LEVELS.get(prop, "proof")
     backends = {}
@@ -177,6 +180,8 @@ def report(prop, tier, seed, results, bounded, kf, known_by_id, wall, a):
           "assumptions": sorted(trusted), "wall_s": round(wall, 2), "violations": len(violations)}
     if not a.no_evidence and not a.unit:
         with open(os.path.join(ROOT, "evidence", f"{prop}.json"), "w") as f: json.dump(ev, f, indent=1, default=str)
+    slow = sorted(((r["seconds"], r["unit"]) for r in results), reverse=True)[:3]
+    print("slowest units: " + ", ".join(f"{u} {t:.0f}s" for t, u in slow))
     print(f"[{prop}] tier={tier} units={len(results)} obligations={len(n_proof)} discharged={len(discharged)} "
           f"covers={cov['covers_reached']} canaries={cov['canaries_refuted']} known={len(cov['known_findings_confirmed'])} "
           f"undecided={len(undecided)} errors={len(errors)} wall={wall:.1f}s exit={code}")
